@@ -4,6 +4,9 @@ every output together with the stage at which something raised (so a failure is 
 from __future__ import annotations
 
 import logging
+import os
+import pathlib
+import shutil
 
 import numpy as np
 
@@ -33,8 +36,48 @@ def build(spec):
     return am, hi, lo
 
 
+YT = 0.99  # Yukawa coupling of the out-of-equilibrium fermion ("top") to field 0 of the BASE model
+OFFEQ_N = 5
+WORK = pathlib.Path(__file__).resolve().parents[2] / ".work" / "e2e-offeq"
+
+
+def base_coordinates(am, phi):
+    """(phi in the coordinates of the BASE model, constant Jacobian J[i, a] = d phi_base_a / d phi_i, product S of unit factors)
+    for field values phi (..., nf) given in the coordinates of the wrapped model `am` (any nesting of Scaled / Relabel)."""
+    phi = np.asarray(phi, dtype=float)
+    J = np.identity(am.nf)
+    S = 1.0
+    while True:
+        if isinstance(am, MD.Scaled):
+            phi, J, S, am = phi / am.s, J / am.s, S * am.s, am.b
+        elif isinstance(am, MD.Relabel):
+            phi, J, am = am.to_base(phi), J @ am.G, am.b
+        else:
+            return phi, J, S
+
+
+def top_particle(am):
+    """One out-of-equilibrium fermion whose mass is m^2 = yt^2 phi_0^2 / 2 in the BASE model, expressed - value and gradient -
+    in the field coordinates and units of `am` ("the particle masses transformed consistently", C08; "mass parameters", C07)."""
+    import WallGo
+
+    def msq(fields):
+        b, _, S = base_coordinates(am, np.asarray(fields, dtype=float).reshape(-1, am.nf))
+        return S**2 * 0.5 * YT**2 * b[:, 0] ** 2
+
+    def dmsq(fields):
+        b, J, S = base_coordinates(am, np.asarray(fields, dtype=float).reshape(-1, am.nf))
+        gb = np.zeros_like(b)
+        gb[:, 0] = YT**2 * b[:, 0]
+        return S**2 * gb @ J.T  # d/dphi_i = sum_a d/dphi_base_a * J[i, a]
+
+    return WallGo.Particle(name="top", index=0, msqVacuum=msq, msqDerivative=dmsq, statistics="Fermion", totalDOFs=12)
+
+
 def pipeline(spec: dict) -> dict:
-    """spec: base, Tn (in base units), s, relabel, M, settings ('default'|'tight'), fscale/Tscale in base units."""
+    """spec: base, Tn (in base units), s, relabel, M, settings ('default'|'tight'), fscale/Tscale in base units;
+    offeq = {"kappa":…, "basis":…, "dN":…}: the wall solve includes one out-of-equilibrium particle (top_particle) with the synthetic
+    relaxation collision operator of c01_offeq (dimensionless: the solver multiplies it by T^2)."""
     import WallGo
 
     logging.disable(logging.CRITICAL)
@@ -55,7 +98,8 @@ def pipeline(spec: dict) -> dict:
         fscale = fscale[spec["relabel"][0]]  # per-field scales permuted consistently
     try:
         out["stage"] = "setup"
-        m = wg.setup_manager(am, Tn, hi, lo, M=spec.get("M", 20), N=11, cfg=cfg, Tscale=spec.get("Tscale", 10.0) * s, fscale=fscale * s)
+        offeq = spec.get("offeq")
+        m = wg.setup_manager(am, Tn, hi, lo, M=spec.get("M", 20), N=OFFEQ_N if offeq else 11, cfg=cfg, Tscale=spec.get("Tscale", 10.0) * s, fscale=fscale * s)
         hyd, th = m.hydrodynamics, m.thermodynamics
         out.update(
             Tn=Tn, vJ=float(hyd.vJ), vMin=float(hyd.vMin), alN=float(hyd.template.alN), psiN=float(hyd.template.psiN),
@@ -78,7 +122,27 @@ def pipeline(spec: dict) -> dict:
         out["stage"] = "matching"
         out["matching"] = [[float(x) for x in hyd.findMatching(v)] for v in (0.3, 0.5 * (np.sqrt(out["cb2"]) + out["vJ"]), 0.9)]
         out["stage"] = "solveWall"
-        res = m.solveWall(wg.solver_settings(offeq=False, thickness=5.0))
+        directory = None
+        if offeq:
+            from .c01_offeq import write_collisions
+
+            directory = WORK / f"run-{os.getpid()}"
+            shutil.rmtree(directory, ignore_errors=True)
+            write_collisions(directory, offeq["kappa"], OFFEQ_N + offeq.get("dN", 0), offeq.get("basis", "Cardinal"))
+            m.model.addParticle(top_particle(am))
+            m.setPathToCollisionData(directory)
+        try:
+            res = m.solveWall(wg.solver_settings(offeq=bool(offeq), thickness=5.0))
+        finally:
+            if directory is not None:
+                shutil.rmtree(directory, ignore_errors=True)
+        if offeq:
+            out.update(
+                deltaF=np.asarray(res.deltaF, dtype=float), truncationError=float(res.truncationError),
+                lin1=np.asarray(res.linearizationCriterion1, dtype=float), lin2=np.asarray(res.linearizationCriterion2, dtype=float),
+                hasOffEq=bool(res.hasOutOfEquilibrium), vwLTEres=res.wallVelocityLTE,
+                **{k: np.array(getattr(res.Deltas, k).coefficients, dtype=float) for k in ("Delta00", "Delta02", "Delta20", "Delta11")},
+            )
         out.update(
             vw=res.wallVelocity, success=bool(res.success), type=res.solutionType.name, Tplus=float(res.temperaturePlus), Tminus=float(res.temperatureMinus),
             widths=np.asarray(res.wallWidths, dtype=float), offsets=np.asarray(res.wallOffsets, dtype=float),
